@@ -506,7 +506,12 @@ def _au_run(fn, st, loc):
 
 
 def _au_reference(method, cand, st, loc):
-    """what the MODEL's ArgumentUnslicer (Schema.au_child / au_close with the parameters cand) does in the same state"""
+    """what the MODEL's ArgumentUnslicer (Schema.au_child / au_close with the parameters cand) does in the same state.
+    NOTE: this is a HAND-WRITTEN PYTHON COPY of the Coq definitions Schema.au_stage / au_child / au_close, not the Coq
+    text itself: argument_unslicer_facts fits the parameters against THIS copy.  That the copy and the Coq definition say
+    the same is not checked here; it is checked by the correspondence of harness/c02.py (framing_cases: every count /
+    positional / keyword / early-close combination of 0..3 arguments, run on the real ArgumentUnslicer and on
+    Schema.recv_arguments by vm_compute), which fails if either the copy or the Coq machine drifts from the code."""
     cmpf = {"SLt": lambda a, b: a < b, "SLe": lambda a, b: a <= b, "SGt": lambda a, b: a > b, "SGe": lambda a, b: a >= b,
             "SEq": lambda a, b: a == b, "SNe": lambda a, b: a != b}[cand[0]]
     zero_skips, first, asserts, nontext = cand[1:]
@@ -712,6 +717,26 @@ def unicode_codec_facts(mod):
     out.append("Definition unicode_unslicer_undecodable_violation : bool := %s.  (* a body that is not UTF-8: the "
                "UnicodeDecodeError is turned into a Violation (true) / escapes the unslicer (false) *)" % ("true" if guarded_ else "false"))
     return out
+
+
+def ensure_str_site(cls, stmt, q):
+    """the one assignment `stmt` (e.g. self.url = six.ensure_str(obj)) inside class cls: True when it is the only statement
+    of `try: .. except UnicodeDecodeError: raise Violation(..)`, False when no try statement encloses it (the
+    UnicodeDecodeError of a byte string that is not UTF-8 escapes the unslicer); anything else: Untranslatable"""
+    sites = [n for n in ast.walk(cls) if isinstance(n, ast.Assign) and flat(str(U(n))) == stmt]
+    need(len(sites) == 1, q + ": expected exactly one `%s`" % stmt)
+    guards = [n for n in ast.walk(cls) if isinstance(n, ast.Try) and len(n.body) == 1 and n.body[0] is sites[0]]
+    if guards:
+        t_ = guards[0]
+        need(not t_.orelse and not t_.finalbody and len(t_.handlers) == 1 and t_.handlers[0].type is not None and
+             flat(str(U(t_.handlers[0].type))) == "UnicodeDecodeError" and t_.handlers[0].name is None and len(t_.handlers[0].body) == 1 and
+             isinstance(t_.handlers[0].body[0], ast.Raise) and isinstance(t_.handlers[0].body[0].exc, ast.Call) and
+             flat(str(U(t_.handlers[0].body[0].exc.func))) == "Violation" and t_.handlers[0].body[0].cause is None,
+             q + ": the handler around `%s` changed" % stmt)
+        return True
+    need(not any(isinstance(n, ast.Try) and any(m is sites[0] for m in ast.walk(n)) for n in ast.walk(cls)),
+         q + ": `%s` stands inside an unrecognised try statement" % stmt)
+    return False
 
 
 OT = {"list": "OtList", "tuple": "OtTuple", "set": "OtSet", "immutable-set": "OtFset", "dict": "OtDict",
@@ -1253,6 +1278,22 @@ def generate():
                  "self.interfaceName = six.ensure_str(obj) or None",
                  "tracker = self.broker.getTrackerForYourReference(self.clid, self.interfaceName, self.url)"):
         need(frag in mrs, "referenceable.ReferenceUnslicer no longer contains: " + frag)
+    # the three remaining six.ensure_str sites of the family repaired in 0c0affc / bc46263 / 66cc69a: the interface name and
+    # the URL of a my-reference, the URL of a their-reference (gift)
+    mrc = P.find_def(mr, "receiveChild")
+    mrcs = flat(str(U(mrc)))
+    i_s0, i_s1, i_s2 = (mrcs.find(f_) for f_ in ("if self.state == 0:", "elif self.state == 1:", "elif self.state == 2:"))
+    i_nm, i_url = mrcs.find("self.interfaceName = six.ensure_str(obj) or None"), mrcs.find("self.url = six.ensure_str(obj)")
+    need(0 <= i_s0 < i_s1 < i_nm < i_s2 < i_url, "referenceable.ReferenceUnslicer.receiveChild: clid, then interface name, then url")
+    g_nm = ensure_str_site(mr, "self.interfaceName = six.ensure_str(obj) or None", "referenceable.ReferenceUnslicer")
+    g_url = ensure_str_site(mr, "self.url = six.ensure_str(obj)", "referenceable.ReferenceUnslicer")
+    out.append("Definition myref_nontext_name_violation : bool := %s.  (* my-reference: an interface name that is not UTF-8 -> "
+               "Violation (true) / the UnicodeDecodeError of six.ensure_str escapes the unslicer (false) *)" % ("true" if g_nm else "false"))
+    out.append("Definition myref_nontext_url_violation : bool := %s.  (* my-reference: the same for the URL *)" % ("true" if g_url else "false"))
+    tr_cls = P.find_class(P.load("referenceable.py"), "TheirReferenceUnslicer")
+    g_turl = ensure_str_site(tr_cls, "self.url = six.ensure_str(obj)", "referenceable.TheirReferenceUnslicer")
+    out.append("Definition theirref_nontext_url_violation : bool := %s.  (* their-reference (gift): the same for its URL; the "
+               "sequence itself is outside the model, the oracle drives this site *)" % ("true" if g_turl else "false"))
     need("self.interface = getRemoteInterfaceByName(interfaceName)" in U(P.find_class(P.load("referenceable.py"), "RemoteReferenceTracker"))
          or "getRemoteInterfaceByName(interfaceName)" in U(P.find_class(P.load("referenceable.py"), "RemoteReferenceTracker")),
          "RemoteReferenceTracker no longer resolves the claimed interface name through the registry")
